@@ -228,10 +228,45 @@ def denNF (s : Src) : NF → Val
   | .series fl c => .series ((keep s fl).map (fun ir => (ir.1, c.eval s.cols ir.2)))
   | .scalar c => .scalar c
 
-/-- decidable equivalence of normal forms: same output expressions, same SET of filter conjuncts -/
+/-! ### boolean structure of predicates: equivalence by truth table over the atoms -/
+
+/-- maximal non-boolean subterms of a predicate -/
+def atoms : CX → List CX
+  | .bin .and a b => atoms a ++ atoms b
+  | .bin .or a b => atoms a ++ atoms b
+  | .not a => atoms a
+  | c => [c]
+
+/-- truth of a predicate as a function of the truth of its atoms -/
+def truthWith (σ : CX → Bool) : CX → Bool
+  | .bin .and a b => truthWith σ a && truthWith σ b
+  | .bin .or a b => truthWith σ a || truthWith σ b
+  | .not a => !truthWith σ a
+  | c => σ c
+
+/-- all boolean vectors of length n -/
+def allBools : Nat → List (List Bool)
+  | 0 => [[]]
+  | n + 1 => (allBools n).flatMap (fun bs => [true :: bs, false :: bs])
+
+/-- the assignment that gives atom `as[i]` the value `bs[i]` (first occurrence) -/
+def assign (as : List CX) (bs : List Bool) (c : CX) : Bool :=
+  match as, bs with
+  | a :: as', b :: bs' => if a == c then b else assign as' bs' c
+  | _, _ => false
+
+/-- two filter lists denote the same row predicate for EVERY truth assignment of their atoms
+    (`p | p = p`, `(p & q) | (p & r) = p & (q | r)`, commutativity, De Morgan, …) -/
+def ttEquiv (fl fl' : List CX) : Bool :=
+  let as := (fl ++ fl').flatMap atoms
+  (allBools as.length).all (fun bs => fl.all (truthWith (assign as bs)) == fl'.all (truthWith (assign as bs)))
+
+def filtEquiv (fl fl' : List CX) : Bool := sameSet fl fl' || ttEquiv fl fl'
+
+/-- decidable equivalence of normal forms: same output expressions, equivalent filters -/
 def NF.equiv : NF → NF → Bool
-  | .frame fl cols, .frame fl' cols' => cols == cols' && sameSet fl fl'
-  | .series fl c, .series fl' c' => c == c' && sameSet fl fl'
+  | .frame fl cols, .frame fl' cols' => cols == cols' && filtEquiv fl fl'
+  | .series fl c, .series fl' c' => c == c' && filtEquiv fl fl'
   | .scalar c, .scalar c' => c == c'
   | _, _ => false
 
